@@ -74,13 +74,14 @@ def run(ctx):
     n += k or 0
     # R01.6: facts shared with C03 / C14 (each is a necessary condition of "the tokens are those the standard defines")
     from . import tokrules as tr
-    from .C14 import r14_4b, semicolon_rule, in_attribute_flag_rule
+    from .C14 import r14_4b, semicolon_rule, in_attribute_flag_rule, charref_start_states_rule
     ctx.rule("R01.6", "shared facts: CR-LF flag consumed on every path that saw it; temporary buffer empty where look-ahead starts; numeric overflow flag sticky; ';' decides before the legacy attribute exception; in-attribute flag over all attribute value states")
     ctx.guard("R01.6", "ignore_lf", lambda: tr.ignore_lf_consumed_when_seen(ctx, "R01.6", "html"))
     ctx.guard("R01.6", "temp_buf", lambda: tr.temp_buf_dataflow(ctx, "R01.6", "html"))
     ctx.guard("R01.6", "overflow", lambda: r14_4b(ctx, "html", "R01.6"))
     ctx.guard("R01.6", "semicolon", lambda: semicolon_rule(ctx, "R01.6"))
     ctx.guard("R01.6", "in-attribute", lambda: in_attribute_flag_rule(ctx, "R01.6"))
+    ctx.guard("R01.6", "charref-start-states", lambda: charref_start_states_rule(ctx, "R01.6"))
     _cmp["n"] = n
     _cmp["programs"] = 2 * len(T["states"]) + len(T["helpers"]) + len(T["charref"])
     ctx.analysed.update(functions=_cmp["programs"], states=len(T["states"]), char_classes=len(T["classes"]))
